@@ -48,7 +48,7 @@ DESCRIPTION = {
     "assumptions": [
         "override values stay in the documented domain (strings, ints, bools; no None, no non-numeric objects for boolean keys)",
         "a bare SQLLineageConfig(**valid) call that is never entered is not generated (the statement does not describe it)",
-        "pre-emption granularity is one source line of config.py; code below line level (single bytecodes) is atomic",
+        "pre-emption at every source line and function return of config.py in 2/3 of the runs and at every bytecode instruction of config.py in 1/3 (the granularity at which the GIL switches); dict/set operations implemented in C are atomic, as under the GIL",
         "environment flips happen between operations of the operator actor, i.e. between lines of config.py, never inside os.environ.get",
     ],
     "required_probes": {
@@ -189,15 +189,16 @@ def gen(seed, ident_base=1000) -> dict:
         "threads": threads,
         "env0": env0,
         "operator": operator,
-        "sched": g.choice(["random", "random", "sticky", "sticky50", "pct1", "pct2", "pct3"]),
+        "sched": g.choice(["random", "random", "sticky", "sticky50", "pct1", "pct2", "pct3", "retbias", "retbias"]),
         "line": g.random() < 0.85,
+        "gran": g.choice(["line", "line", "instr"]),
         "final_probe": True,
     }
 
 
 def plan(seed: int, tier: str) -> list[dict]:
     master = stream(seed, "c15-plan")
-    nruns = {"quick": 20_000, "thorough": 400_000}[tier]
+    nruns = {"quick": 14_000, "thorough": 400_000}[tier]
     block = 250
     units = []
     nblocks = nruns // block
@@ -503,8 +504,12 @@ def run_one(spec: dict) -> dict:
 
     global _tracer
     if spec.get("line"):
+        gran = spec.get("gran", "line")
+        if _tracer is not None and _tracer.granularity != gran:
+            _tracer.uninstall()
+            _tracer = None
         if _tracer is None:
-            _tracer = LineTracer(sched, [cfgmod])
+            _tracer = LineTracer(sched, [cfgmod], granularity=gran)
             _tracer.install()
         _tracer.sched = sched
         _tracer.enabled = True
@@ -517,8 +522,10 @@ def run_one(spec: dict) -> dict:
     def counting_yield(kind, detail=None):
         before = sched.switches
         orig_yield(kind, detail)
-        if sched.switches != before and kind == "line":
+        if sched.switches != before and kind in ("line", "instr", "ret"):
             switch_sites[detail[0]] = switch_sites.get(detail[0], 0) + 1
+            if kind != "line":
+                w.probes["switch_at_" + kind] = w.probes.get("switch_at_" + kind, 0) + 1
 
     sched.yield_point = counting_yield  # type: ignore
     try:
